@@ -20,9 +20,19 @@ from harness import common
 
 DRIVER = "c10"
 ASSUMPTIONS = [
-    "index expressions are the forms of the property: integer, slice, boolean mask, index list, and for multi-element "
-    "dimensions (.., j), (i, ..), (i, j), (rows, cols) with rows/cols an int, slice, list or (rows only) mask; tuples of "
-    "another length, None/newaxis and `v[i, j, ...]` are outside the property (coordinator's decision)",
+    "index expressions are the forms of the property: integer (python / numpy of any integer dtype), slice, boolean mask, index "
+    "sequence (list, python range of any sign of start / stop / step, integer array of any of the 8 integer dtypes with negative "
+    "entries, nested lists / 2-d index arrays), Ellipsis, the same inside a 1-tuple or next to an Ellipsis, and for multi-element "
+    "dimensions (.., j), (i, ..), (i, j), (rows, cols) with rows/cols any of these; None/newaxis and `v[i, j, ...]` are outside "
+    "the property (coordinator's decision)",
+    "a python number / sequence on the LEFT of an arithmetic operator (2 * v, [..] - v, 100 // v), the unary operators and the operators "
+    "the views do not define (% ** & | ^ << >> @) raise TypeError on the unchanged views: no result, the property holds vacuously "
+    "(counted under 'no result: view raises'); a comparison with the constant on the left is python's mirrored comparison of the view "
+    "and is judged; whenever any of them returns a result it must be numpy's on np.array(view)",
+    "augmented assignment: `v op= c` on a name bound to a view is judged by the value v has afterwards against the same statement on "
+    "np.array(view), read as numpy's in-place operator or, where that differs or refuses (a float / wider result for an integer "
+    "array), as the binary operator python falls back to for an object without in-place methods; `las.<dim> op= c` by the record's "
+    "memory afterwards against the memory after assigning numpy's result",
     "scales are positive and finite (the monotonicity hypothesis of C10_scaled_minmax; C11 quantifies the same way)",
     "ordering and equality comparisons of scaled views are defined on the stored integer grid and excluded by the property",
     "indexing a one-element scaled view with a numpy integer returns a view object that cannot be materialised "
@@ -44,6 +54,16 @@ SYM = {"lt": "<", "le": "<=", "gt": ">", "ge": ">=", "eq": "==", "ne": "!=", "ad
        "truediv": "/", "floordiv": "//"}
 CMP = OPS[:6]
 ARITH = OPS[6:]
+# operators the views do not define today (python raises TypeError: no result); part of the family so that a view that
+# starts answering one of them is judged
+EXTRA_BIN = ["mod", "pow", "and_", "or_", "xor", "lshift", "rshift", "matmul"]
+SYM.update({"mod": "%", "pow": "**", "and_": "&", "or_": "|", "xor": "^", "lshift": "<<", "rshift": ">>", "matmul": "@"})
+UNARY = {"neg": "-v", "pos": "+v", "abs": "abs(v)", "invert": "~v"}
+INPLACE = ["iadd", "isub", "imul", "ifloordiv", "itruediv", "imod", "ipow", "iand", "ior", "ixor", "ilshift", "irshift"]
+ISYM = {"iadd": "+=", "isub": "-=", "imul": "*=", "ifloordiv": "//=", "itruediv": "/=", "imod": "%=", "ipow": "**=", "iand": "&=",
+        "ior": "|=", "ixor": "^=", "ilshift": "<<=", "irshift": ">>="}
+IBIN = {"iadd": "add", "isub": "sub", "imul": "mul", "ifloordiv": "floordiv", "itruediv": "truediv", "imod": "mod", "ipow": "pow",
+        "iand": "and_", "ior": "or_", "ixor": "xor", "ilshift": "lshift", "irshift": "rshift"}
 INT_DTYPES = ["int8", "uint8", "int16", "uint16", "int32", "uint32", "int64", "uint64"]
 
 
@@ -56,6 +76,10 @@ def fhex(x):
 
 def unfhex(s):
     return float.fromhex(s)
+
+
+def _unhex_nested(l):
+    return [_unhex_nested(q) if isinstance(q, list) else unfhex(q) if isinstance(q, str) else q for q in l]
 
 
 def mk_operand(s, env, side):
@@ -76,7 +100,9 @@ def mk_operand(s, env, side):
         vals = [unfhex(v) if isinstance(v, str) else v for v in s[3]]
         return np.array(vals, dtype=s[1]).reshape(s[2])
     if t == "list":
-        return list(s[1])
+        return _unhex_nested(s[1])
+    if t == "tuple":
+        return tuple(_unhex_nested(s[1]))
     if t == "self":
         return env["view"] if side == "view" else env["arr"]
     if t == "view":      # another dimension of the same record, the same object on both sides
@@ -102,10 +128,14 @@ def mk_index(s):
         return np.array(s[1], dtype=bool)
     if t == "list":
         return list(s[1])
-    if t == "nparr":
-        return np.array(s[1], dtype=np.int64)
+    if t == "nparr":         # ["nparr", entries (nested lists / one int: 0-d), dtype]
+        return np.array(s[1], dtype=s[2] if len(s) > 2 else "int64")
+    if t == "range":
+        return range(s[1], s[2], s[3])       # always spelt with its three bounds
     if t == "ellipsis":
         return Ellipsis
+    if t == "none":
+        return None
     if t == "tuple":
         return tuple(mk_index(q) for q in s[1])
     raise ValueError(f"index {s}")
@@ -147,7 +177,19 @@ FUNCS = {
     "np.cumsum": lambda x: np.cumsum(x), "np.nonzero": lambda x: np.nonzero(x), "np.any": lambda x: np.any(x), "np.all": lambda x: np.all(x),
     "np.median": lambda x: np.median(x), "np.ptp": lambda x: np.ptp(x), "np.std": lambda x: np.std(x),
     "np.array": lambda x: np.array(x), "np.asarray": lambda x: np.asarray(x), "np.copy": lambda x: np.copy(x), "copy()": lambda x: x.copy(),
-    "np.array_f32": lambda x: np.array(x, dtype=np.float32),
+    "np.array_f32": lambda x: np.array(x, dtype=np.float32), "np.asarray_f32": lambda x: np.asarray(x, dtype=np.float32),
+    "np.asarray_f16": lambda x: np.asarray(x, dtype=np.float16), "np.array_f16": lambda x: np.array(x, dtype="float16"),
+    "np.asarray_f32_order": lambda x: np.asarray(x, dtype="f4", order="C"), "np.asanyarray_f32": lambda x: np.asanyarray(x, dtype=np.float32),
+    "np.array_f32_copy": lambda x: np.array(x, dtype=np.float32, copy=True), "np.ascontiguousarray_f16": lambda x: np.ascontiguousarray(x, dtype=np.float16),
+    "np.require_f32": lambda x: np.require(x, dtype=np.float32), "f32[:] = v": lambda x: _assign_into(np.float32, x),
+    "f16[:] = v": lambda x: _assign_into(np.float16, x), "np.asarray_longdouble": lambda x: np.asarray(x, dtype=np.longdouble),
+    "np.asarray_i64": lambda x: np.asarray(x, dtype=np.int64), "np.asarray_c64": lambda x: np.asarray(x, dtype=np.complex64),
+    "py.max": lambda x: max(x), "py.min": lambda x: min(x), "py.sum": lambda x: sum(x), "py.sorted": lambda x: sorted(x), "py.list": lambda x: list(x),
+    "py.reversed": lambda x: list(reversed(x)), "py.in": lambda x, o: o in x, "py.enumerate": lambda x: [q for _, q in zip(range(3), x)],
+    "py.any": lambda x: any(x), "py.all": lambda x: all(x), "py.tuple": lambda x: tuple(x), "py.iter_next": lambda x: next(iter(x)),
+    "divmod": lambda x, o: divmod(x, o), "rdivmod": lambda x, o: divmod(o, x),
+    "np.float32(v)": lambda x: np.float32(x), "np.fromiter_f32": lambda x: np.fromiter(x, dtype=np.float32),
+    "list(map(float, v))": lambda x: [float(q) for q in x], "np.stack_f32": lambda x: np.stack([x, x], dtype=np.float32, casting="unsafe"),
     "len": lambda x: len(x), "shape": lambda x: list(x.shape), "np.shape": lambda x: list(np.shape(x)), "ndim": lambda x: x.ndim,
     "np.ravel": lambda x: np.ravel(x), "np.clip": lambda x: np.clip(x, 1, 3), "np.array_equal": lambda x, o: np.array_equal(x, o),
     "np.diff": lambda x: np.diff(x), "np.round": lambda x: np.round(x, 1), "np.floor": lambda x: np.floor(x), "np.abs": lambda x: np.abs(x),
@@ -161,6 +203,19 @@ FUNCS = {
 }
 
 
+def _assign_into(dtype, x):
+    """buf[:] = view for a buffer of a narrower floating type (the usual hand-over to plotting / GPU code)"""
+    buf = np.full(np.shape(x), 7.5, dtype=dtype)
+    buf[...] = x
+    return buf
+
+
+PY_BUILTINS = ["py.max", "py.min", "py.sum", "py.sorted", "py.list", "py.reversed", "py.enumerate", "py.any", "py.all", "py.tuple", "py.iter_next"]
+CONVERSIONS = ["np.asarray_f32", "np.asarray_f16", "np.array_f16", "np.asarray_f32_order", "np.asanyarray_f32", "np.array_f32_copy",
+               "np.ascontiguousarray_f16", "np.require_f32", "f32[:] = v", "f16[:] = v", "np.asarray_longdouble", "np.asarray_i64",
+               "np.asarray_c64", "np.float32(v)", "np.fromiter_f32", "np.stack_f32"]
+
+
 def apply_expr(e, x, env, side):
     t = e[0]
     if t == "op":
@@ -169,6 +224,8 @@ def apply_expr(e, x, env, side):
         return getattr(operator, e[1])(mk_operand(e[2], env, side), x)
     if t == "fn":
         return FUNCS[e[1]](x, *[mk_operand(o, env, side) for o in e[2:]])
+    if t == "unary":
+        return getattr(operator, e[1])(x)
     if t == "idx":
         return x[mk_index(e[1])]
     if t == "seq":
@@ -186,6 +243,12 @@ def expr_str(e):
         return f"v {SYM[e[1]]} {opnd_str(e[2])}"
     if t == "rop":
         return f"{opnd_str(e[2])} {SYM[e[1]]} v"
+    if t == "unary":
+        return UNARY[e[1]]
+    if t == "iop":
+        return f"v {ISYM[e[1]]} {opnd_str(e[2])}"
+    if t == "iattr":
+        return f"las.<dim> {ISYM[e[1]]} {opnd_str(e[2])}"
     if t == "fn":
         return e[1] + "(v" + "".join(", " + opnd_str(o) for o in e[2:]) + ")"
     if t == "idx":
@@ -204,15 +267,15 @@ def opnd_str(s):
         return f"np.{s[1]}({s[2]})"
     if s[0] in ("float", "npfloat"):
         return f"{unfhex(s[-1])!r}" + (f":{s[1]}" if s[0] == "npfloat" else "")
-    if s[0] == "list":
-        return f"list(len {len(s[1])})"
+    if s[0] in ("list", "tuple"):
+        return f"{s[0]}(len {len(s[1])})"
     return ":".join(str(q) for q in s)[:40]
 
 
 def ix_str(s):
     t = s[0]
     if t in ("int", "npint"):
-        return ("np.int64(%d)" if t == "npint" else "%d") % s[1]
+        return (f"np.{s[2] if len(s) > 2 else 'int64'}(%d)" if t == "npint" else "%d") % s[1]
     if t == "slice":
         return ":".join("" if q is None else str(q) for q in s[1:4])
     if t == "mask":
@@ -220,10 +283,14 @@ def ix_str(s):
     if t == "list":
         return str(s[1])
     if t == "nparr":
-        return f"array({s[1]})"
+        return f"array({s[1]}, {s[2] if len(s) > 2 else 'int64'})"
+    if t == "range":
+        return f"range({s[1]}, {s[2]}, {s[3]})"
     if t == "ellipsis":
         return "..."
-    return ", ".join(ix_str(q) for q in s[1])
+    if t == "none":
+        return "None"
+    return "(" + ", ".join(ix_str(q) for q in s[1]) + ("," if len(s[1]) == 1 else "") + ")"
 
 
 # --------------------------------------------------------------------------------------------
@@ -323,6 +390,8 @@ CALL_SPECIAL = {
     "operator.floordiv": operator.floordiv, "operator.lt": operator.lt, "operator.le": operator.le, "operator.eq": operator.eq,
     "operator.ne": operator.ne, "operator.ge": operator.ge, "operator.gt": operator.gt,
     "method.max": lambda x, *a, **k: x.max(*a, **k), "method.min": lambda x, *a, **k: x.min(*a, **k),
+    "operator.iadd": operator.iadd, "operator.isub": operator.isub, "operator.imul": operator.imul, "operator.itruediv": operator.itruediv,
+    "operator.ifloordiv": operator.ifloordiv, "operator.imod": operator.imod,
 }
 
 
@@ -404,9 +473,10 @@ def build(data):
     if data["kind"] == "subfield":
         fmt, name = data["format"], data["field"]
         composed, mask = [(c, m) for f, n, c, m in sub_fields() if f == fmt and n == name][0]
-        if "pattern" in data:        # ["pattern", n, a, b]: byte i is (i * a + b) % 256 (large records, not spelt out in the replay)
+        if "pattern" in data:        # ["pattern", n, a, b]: byte i is (i * a + i // 256 * 7 + i // 65536 * 3 + b) % 256 (large records, not spelt out in the replay)
             _, n_, pa, pb = data["pattern"]
-            col = ((np.arange(n_, dtype=np.int64) * pa + pb) % 256).astype(np.uint8)
+            i_ = np.arange(n_, dtype=np.int64)       # no period of 256 or 65536: positions that differ by a wrap hold different bytes
+            col = ((i_ * pa + (i_ // 256) * 7 + (i_ // 65536) * 3 + pb) % 256).astype(np.uint8)
         else:
             col = np.frombuffer(bytes.fromhex(data["bytes"]), dtype=np.uint8)
         n = len(col)
@@ -569,8 +639,96 @@ def first_difference(x, y, path=""):
     return ""
 
 
+def _access(env):
+    """(read, write) of the dimension under test through the access path of the data (las[name] / las.name / las.points[name])"""
+    las, name, via = env["las"], env["name"], env["data"].get("via", "item")
+    if via == "attr":
+        return (lambda: getattr(las, name)), (lambda val: setattr(las, name, val))
+    if via == "record":
+        return (lambda: las.points[name]), (lambda val: las.points.__setitem__(name, val))
+    return (lambda: las[name]), (lambda val: las.__setitem__(name, val))
+
+
+def run_inplace(data, expr):
+    """augmented assignments.  ["iop", op, c]: `v = <view>; v op= c` - the value v is bound to afterwards; ["iattr", op, c]:
+    `las.<dim> op= c` (python: las.<dim> = las.<dim>.__iop__(c), or = las.<dim> op c when the view has no in-place method) -
+    the record's memory afterwards.  The same statement on the materialised array has two readings, numpy's in-place operator
+    (keeps the dtype of the array, refuses float results for integer arrays) and the binary operator python falls back to when
+    an object defines no in-place method; where both return a result and differ (np.int64 operand on a uint8 field: the
+    wrapped uint8 against int64), either is accepted.  A result that is neither is a failing input; so is a record modified by
+    `v op= c` otherwise than to the values v then has."""
+    kind, op, c = expr
+    env = build(data)
+    v = env["get"]()
+    env["view"], env["arr"] = v, np.array(v)
+    mem0 = env["las"].points.array.tobytes()
+    iop, bop = getattr(operator, op), getattr(operator, IBIN[op])
+
+    def readings(e):
+        a = np.array(e["get"]())
+        e["view"], e["arr"] = e["get"](), a
+        a1 = a.copy()
+        return [("numpy's in-place operator", ev(lambda: iop(a1, mk_operand(c, e, "np")))),
+                ("the binary operator", ev(lambda: bop(a, mk_operand(c, e, "np"))))]
+    if kind == "iop":
+        rv = ev(lambda: iop(v, mk_operand(c, env, "view")))
+        mem1 = env["las"].points.array.tobytes()
+        refs = readings(build(data))
+        ok = [r for _, r in refs if r[0] == "ok"]
+        if rv[0] == "ok":
+            if mem1 != mem0:
+                now = ev(lambda: np.array(env["get"]()))
+                if now[0] != "ok" or not same_value(now[1], rv[1]):
+                    return "differs", (f"{expr_str(expr)}: the record was modified and now holds {describe(now)}, v is {describe(rv)}")
+            if not ok:
+                return "npraises", f"{expr_str(expr)}: view gives {describe(rv)}, numpy on np.array(view) raises {refs[0][1][1]} / {refs[1][1][1]}"
+            if any(same_value(rv[1], r[1]) for r in ok):
+                return "same", None
+            return "differs", (f"{expr_str(expr)}: {first_difference(rv[1], ok[-1][1])}view gives {describe(rv)}, on np.array(view) "
+                               + ", ".join(f"{nm} gives {describe(r)}" for nm, r in refs))
+        if rv[0] == "unmat":
+            return "unmat", f"{expr_str(expr)}: result of the view cannot be materialised ({rv[1]} {rv[2]})"
+        if len(ok) == len(refs):
+            return "viewraises", f"{expr_str(expr)}: view raises {rv[1]} ({rv[2]}), numpy gives {describe(ok[-1])}"
+        return "noresult", None
+    # iattr
+    rd, wr = _access(env)
+
+    def stmt():
+        wr(iop(rd(), mk_operand(c, env, "view")))
+        return np.frombuffer(env["las"].points.array.tobytes(), dtype=np.uint8)
+    rv = ev(stmt)
+    outs = []
+    for nm, r in readings(build(data)):
+        if r[0] != "ok":
+            outs.append((nm, r))
+            continue
+        e3 = build(data)
+        _, wr3 = _access(e3)
+
+        def store(r=r, e3=e3, wr3=wr3):
+            wr3(r[1])
+            return np.frombuffer(e3["las"].points.array.tobytes(), dtype=np.uint8)
+        outs.append((nm, ev(store)))
+    ok = [r for _, r in outs if r[0] == "ok"]
+    if rv[0] == "ok":
+        if not ok:
+            return "npraises", (f"{expr_str(expr)} on {env['name']}: the record is modified, assigning numpy's result raises "
+                                f"{outs[0][1][1]} / {outs[1][1][1]}")
+        if any(np.array_equal(rv[1], r[1]) for r in ok):
+            return "same", None
+        diff = np.flatnonzero(rv[1] != ok[-1][1]) if len(rv[1]) == len(ok[-1][1]) else []
+        return "differs", (f"{expr_str(expr)} on {env['name']}: the record's memory afterwards differs from the memory after assigning what "
+                           f"numpy computes on np.array(view) ({len(diff)} bytes, first at {int(diff[0]) if len(diff) else '?'})")
+    if len(ok) == len(outs):
+        return "viewraises", f"{expr_str(expr)} on {env['name']}: raises {rv[1]} ({rv[2]}), assigning numpy's result is accepted"
+    return "noresult", None
+
+
 def run_case(data, expr, env=None):
     """-> (verdict, detail); verdict: same | noresult (both raise) | viewraises | unmat | differs | npraises"""
+    if expr[0] in ("iop", "iattr"):
+        return run_inplace(data, expr)
     env = env or build(data)
     v = env["get"]()
     env["view"] = v
@@ -657,37 +815,71 @@ def other_operands(n, mask_or_none, rng, names):
     return out
 
 
+def rand_range(rng, n):
+    """a python range whose bounds take every sign: ascending / descending, bounds counted from the end, down to and including 0"""
+    a = rng.choice([0, 1, n - 1, n, -1, -n, -(n // 2) - 1, rng.randrange(-n - 1, n + 2)])
+    b = rng.choice([0, 1, n - 1, n, -1, -n, -n - 1, -(n // 2) - 1, rng.randrange(-n - 2, n + 3)])
+    c = rng.choice([1, 1, 2, 3, -1, -1, -2, -3, n + 1])
+    return ["range", a, b, c]
+
+
+def rand_index_array(rng, n, k=None):
+    """an integer index array of any of the 8 integer dtypes, negative entries for the signed ones"""
+    dt = rng.choice(INT_DTYPES + ["intp"])
+    k = rng.choice([0, 1, 3]) if k is None else k
+    lo = 0 if dt.startswith("u") else -n
+    return ["nparr", [rng.randrange(lo, n) if n else 0 for _ in range(k)], dt]
+
+
 def rand_index_1d(rng, n):
     r = rng.random()
-    if r < 0.17:
+    if r < 0.15:
         return ["int", rng.choice([0, -1, n - 1, -n, n, -n - 1, rng.randrange(-n - 1, n + 2)])], "int"
-    if r < 0.22:
-        return ["npint", rng.choice([0, n - 1, -1, rng.randrange(-n, n + 1)]), rng.choice(["int64", "uint8", "int32", "intp"])], "numpy int"
-    if r < 0.47:
+    if r < 0.20:
+        dt = rng.choice(["int64", "uint8", "int32", "intp", "int8", "uint64"])
+        return ["npint", rng.choice([0, n - 1, -1, rng.randrange(-n, n + 1)] if not dt.startswith("u") else [0, n - 1, n, rng.randrange(0, n + 1)]), dt], "numpy int"
+    if r < 0.40:
         a = rng.choice([None, 0, 1, -1, n, -n, rng.randrange(-n - 2, n + 3)])
         b = rng.choice([None, 0, 1, -1, n, -n, rng.randrange(-n - 2, n + 3)])
         c = rng.choice([None, 1, 2, 3, -1, -2, n + 1])
         return ["slice", a, b, c], "slice"
-    if r < 0.67:
+    if r < 0.55:
         return ["mask", [rng.random() < rng.choice([0.0, 0.5, 0.5, 1.0]) for _ in range(n)]], "mask"
-    if r < 0.85:
+    if r < 0.67:
         k = rng.choice([0, 1, 2, 5])
         return ["list", [rng.randrange(-n, n) if n else 0 for _ in range(k)]], "index list"
-    if r < 0.95:
-        k = rng.choice([0, 1, 3])
-        return ["nparr", [rng.randrange(-n, n) if n else 0 for _ in range(k)]], "index array"
+    if r < 0.77:
+        return rand_index_array(rng, n), "index array"
+    if r < 0.88:
+        return rand_range(rng, n), "range"
+    if r < 0.92:     # the same forms inside a 1-tuple, an Ellipsis next to them
+        inner = rng.choice([["slice", rng.choice([None, 1]), rng.choice([None, -1, n]), rng.choice([None, -1, 2])], rand_range(rng, n),
+                            ["list", [rng.randrange(-n, n) if n else 0 for _ in range(rng.choice([0, 2]))]], rand_index_array(rng, n)])
+        return ["tuple", rng.choice([[inner], [inner, ["ellipsis"]], [["ellipsis"], inner]])], "tuple"
+    if r < 0.95:     # nested index lists / 2-d index arrays: one more axis in the result
+        rows = [[rng.randrange(-n, n) if n else 0 for _ in range(2)] for _ in range(rng.choice([1, 2]))]
+        return rng.choice([["list", rows], ["nparr", rows, rng.choice(INT_DTYPES[::2] + ["int64"])]]), "nested index list"
+    if r < 0.97:
+        return rng.choice([["ellipsis"], ["tuple", []], ["tuple", [["ellipsis"]]]]), "ellipsis"
     return ["slice", None, None, None], "slice"
 
 
 def rand_axis(rng, n, allow_mask):
-    """one axis of a (rows, cols) pair: int, slice, list or mask"""
+    """one axis of a (rows, cols) pair: int, numpy int, slice, list, range, index array or mask"""
     r = rng.random()
-    if r < 0.3:
+    if r < 0.25:
         return ["int", rng.choice([0, -1, n - 1, rng.randrange(-n, n) if n else 0, n])], "int"
-    if r < 0.6:
+    if r < 0.30:
+        dt = rng.choice(["int64", "uint8", "int16", "intp"])
+        return ["npint", rng.choice([0, n - 1, -1] if not dt.startswith("u") else [0, n - 1, max(n - 2, 0)]), dt], "numpy int"
+    if r < 0.52:
         return ["slice", rng.choice([None, 0, 1, -1, rng.randrange(-n - 1, n + 2)]), rng.choice([None, n, -1, rng.randrange(-n - 1, n + 2)]),
                 rng.choice([None, 1, -1, 2, -2])], "slice"
-    if r < 0.85 or not allow_mask:
+    if r < 0.62:
+        return rand_range(rng, n), "range"
+    if r < 0.70:
+        return rand_index_array(rng, n, rng.choice([0, 1, 2, 3])), "index array"
+    if r < 0.87 or not allow_mask:
         k = rng.choice([0, 1, 2, 3])
         return ["list", [rng.randrange(-n, n) if n else 0 for _ in range(k)]], "list"
     return ["mask", [rng.random() < 0.5 for _ in range(n)]], "mask"
@@ -712,8 +904,8 @@ def rand_index_2d(rng, n, k):
                            (["tuple", [["mask", [i % 2 == 0 for i in range(n)]], ["slice", 1, 3, None]]], "(mask, slice)")])
     i, ci = rand_axis(rng, n, True)
     j, cj = rand_axis(rng, k, False)
-    if ci in ("list", "mask") and cj == "list":      # pointwise pairs: lengths must agree most of the time
-        cnt = sum(i[1]) if ci == "mask" else len(i[1])
+    if ci in ("list", "mask", "range", "index array") and cj == "list":      # pointwise pairs: lengths must agree most of the time
+        cnt = sum(i[1]) if ci == "mask" else len(mk_index(i))
         if rng.random() < 0.85:
             j = ["list", [rng.randrange(-k, k) if k else 0 for _ in range(cnt)]]
     return ["tuple", [i, j]], f"({ci}, {cj})"
@@ -853,7 +1045,8 @@ SF_FUNCS0 = ["np.min", "np.max", "np.sum", "np.mean", "np.min0", "np.max0", "np.
              "np.where_nz", "max()", "min()", "max(0)", "min(0)", "max(keepdims)", "min(keepdims)", "max(initial)", "min(initial)",
              "np.sort", "np.argmax", "np.argmin", "np.argsort", "np.count_nonzero", "np.add.reduce", "np.maximum.reduce",
              "np.minimum.accumulate", "np.add.outer", "np.stack", "np.vstack", "np.hstack", "np.cumsum", "np.nonzero", "np.any",
-             "np.all", "np.median", "np.ptp", "np.std", "np.array", "np.asarray", "np.copy", "copy()", "np.array_f32", "len", "shape",
+             "np.all", "np.median", "np.ptp", "np.std", "np.array", "np.asarray", "np.copy", "copy()", "np.array_f32", "np.asarray_f16",
+             "np.asarray_i64", "f32[:] = v", "len", "shape",
              "np.shape", "ndim", "np.ravel", "np.clip", "np.diff", "np.histogram", "np.percentile", "np.take", "np.flip",
              "np.transpose", "np.searchsorted", "np.average", "np.bincount", "np.abs"]
 FUNCS1 = ["np.isin", "np.isin_r", "np.isin_invert", "np.concatenate", "np.concatenate_r", "np.where_eq", "np.where_ne", "np.where_lt",
@@ -871,8 +1064,10 @@ def sweep_subfield_functions(sw, sfs):
             data = {"kind": "subfield", "format": fmt, "field": name, "bytes": col.hex(), "via": ctx.rng.choice(["item", "attr", "record"])}
             env = build(data)
             names = [q for f, q, c, m in sfs if f == fmt and q != name]
-            for fn in SF_FUNCS0:
-                sw.check(f"subfield {fn}", data, ["fn", fn], env, ("sff", mask, fn, col))
+            for fn in SF_FUNCS0 + PY_BUILTINS:
+                sw.check(f"subfield {fn}", data, ["fn", fn], env, ("sff", mask, fn, col), quiet_viewraises=fn in PY_BUILTINS)
+            for o in (["int", "0"], ["int", str(maxv)], ["float", fhex(1.0)], ["np", "uint8", "1"]):
+                sw.check("subfield py.in", data, ["fn", "py.in", o], env, ("sff", mask, "py.in", col, str(o)), quiet_viewraises=True)
             opnds = [["int", str(ctx.rng.randrange(maxv + 2))], ["np", "uint8", str(maxv)], ["list", [0, 1, maxv, maxv + 1]],
                      ["arr", "int64", [n], [ctx.rng.randrange(maxv + 2) for _ in range(n)]], ["float", fhex(1.0)], ["self"],
                      ["view", ctx.rng.choice(names)], ["view", "intensity"]]
@@ -900,7 +1095,7 @@ SC_FUNCS0 = ["np.min", "np.max", "np.sum", "np.mean", "np.min0", "np.max0", "np.
              "min(initial f)", "max(None)", "max(axis kw)", "min(out)", "np.sort",
              "np.argmax", "np.argmin", "np.count_nonzero", "np.add.reduce", "np.maximum.reduce", "np.stack", "np.vstack", "np.hstack",
              "np.cumsum", "np.nonzero", "np.any", "np.median", "np.ptp", "np.array", "np.asarray", "np.copy", "copy()", "np.array_f32",
-             "len", "shape", "np.shape", "ndim", "np.ravel", "np.clip", "np.round", "np.floor", "np.abs", "np.take", "np.flip",
+             ] + CONVERSIONS + ["len", "shape", "np.shape", "ndim", "np.ravel", "np.clip", "np.round", "np.floor", "np.abs", "np.take", "np.flip",
              "np.transpose", "np.isnan", "np.average", "np.percentile", "np.max_out_tuple"]
 SC_FUNCS_MULTI = ["np.max1", "np.min-1", "np.sum1", "np.mean-1", "max(1)", "min(-1)", "np.unique0", "np.concatenate1"]
 SC_FUNCS1 = ["np.isin", "np.isin_r", "np.concatenate", "np.concatenate_r", "np.add", "np.subtract", "np.multiply", "np.true_divide",
@@ -923,6 +1118,8 @@ def sweep_scaled(sw, count):
                      env, ("scr", it, op))
         for fn in SC_FUNCS0 + (SC_FUNCS_MULTI if multi else []):
             sw.check(f"{tag} {fn}", data, ["fn", fn], env, ("scf", it, fn))
+        for fn in PY_BUILTINS:
+            sw.check(f"{tag} {fn}", data, ["fn", fn], env, ("scf", it, fn), quiet_viewraises=True)
         for fn in SC_FUNCS1:
             for o in ctx.rng.sample(opnds, 6):
                 sw.check(f"{tag} {fn}", data, ["fn", fn, o], env, ("scf", it, fn, tuple(map(str, o))[:3]))
@@ -1254,6 +1451,11 @@ def sweep_keyword_calls(sw, data, env, tag, sibling, bit_view, others_dim):
         go("at (values, repeated index)", "np.subtract.at", [["fill", "float64", shape, 0], ["arr", "int64", [n], [i // 2 for i in range(n)]], me], {})
         if data["kind"] == "subfield":
             go("at (indices)", "np.add.at", [["fill", "int64", [256], 0], me, ["int", "1"]], {})
+    # augmented assignment of a plain array with the view on the right: buffer op= view
+    for opn in ("iadd", "isub", "imul", "itruediv", "ifloordiv", "imod"):
+        go(f"buffer {ISYM[opn]} v", "operator." + opn, [["fill", "float64", shape, 0], me], {})
+    go("int buffer += v", "operator.iadd", [["fill", "int64", shape, 0], me], {})
+    go("broadcast buffer -= v", "operator.isub", [["fill", "float64", [2] + shape, 0], me], {})
     # numpy functions with out= / where= / dtype=
     go("np.sum out", "np.sum", [me], {"out": ["fill", "float64", [], 0]})
     go("np.sum axis out", "np.sum", [me], {"axis": ["lit", 0], "out": ["fill", "float64", tail, 0]})
@@ -1297,7 +1499,7 @@ def sweep_keyword_calls(sw, data, env, tag, sibling, bit_view, others_dim):
     go("np.zeros_like dtype", "np.zeros_like", [me], {"dtype": ["dtype", "float32"]})
     go("np.where(view mask)", "np.where", [["rec", 0, bit_view], me, ["int", "-1"]], {})
     go("np.where(view mask, c, v)", "np.where", [["rec", 0, bit_view], ["float", fhex(0.5)], me], {}) if not tail else None
-    for dt in ("bool", "int64", "uint8", "float32", "float64", "complex128", "int8", "uint16"):
+    for dt in ("bool", "int64", "uint8", "float32", "float16", "float64", "complex128", "int8", "uint16"):
         go(f"np.asarray dtype={dt}", "np.asarray", [me], {"dtype": ["dtype", dt]})
         go(f"np.array dtype={dt}", "np.array", [me], {"dtype": ["dtype", dt], "copy": ["lit", True]})
     go("np.asarray(dtype) positional", "np.asarray", [me, ["dtype", "bool"]], {})
@@ -1563,6 +1765,10 @@ def sweep_sizes(sw, sfs):
             + [["fn", f] for f in ("np.sum", "np.max", "max()", "min()", "np.unique_counts", "np.count_nonzero", "np.concatenate_self", "np.bincount", "np.array", "np.argmax", "np.mean")] \
             + [["seq", ["idx", ["slice", 65535, 65538, None]], ["op", "le", ["int", str(maxv)]]], ["seq", ["idx", ["slice", None, None, 65536]], ["fn", "np.array"]],
                ["seq", ["idx", ["slice", 2 ** 16 - 1, None, None]], ["fn", "np.sum"]], ["idx", ["int", n - 1]], ["idx", ["int", 65536]],
+               ["idx", ["nparr", [65536, n - 1, -1, -65537] + [65535 + 37 * j for j in range(1, 30)], "int32"]],
+               ["idx", ["nparr", [65536 + 5, n - 2] + [n - 1 - 1001 * j for j in range(30)], "uint32"]],
+               ["idx", ["nparr", [70000, -70000] + [-65537 - 91 * j for j in range(30)], "int64"]], ["idx", ["range", n - 1, 65000, -4099]],
+               ["idx", ["npint", 65536 + 9, "uint32"]],
                ["call", "np.add", [["self"], ["int", "1"]], {"out": ["fill", "float64", [n], 0], "where": ["cmp", "ne", ["self"], ["int", "0"]]}],
                ["call", "np.concatenate", [["lst", [["rec", 0, name, ["slice", None, 65536, None]], ["rec", 0, name, ["slice", 65536, None, None]]]]], {}],
                ["call", "np.isin", [["self"], ["lit", [0, maxv]]], {}]]
@@ -1577,11 +1783,256 @@ def sweep_sizes(sw, sfs):
             + [["fn", f] for f in ("np.sum", "np.max", "np.min", "max()", "min()", "np.mean", "np.concatenate_self", "np.array", "np.argmax", "np.ptp", "np.unique")] \
             + [["seq", ["idx", ["slice", 65535, 65538, None]], ["fn", "np.array"]], ["seq", ["idx", ["slice", None, None, 65536]], ["fn", "max()"]],
                ["seq", ["idx", ["slice", 2 ** 16, None, None]], ["fn", "min()"]], ["idx", ["int", n - 1]], ["idx", ["int", 65536]],
+               ["idx", ["nparr", [65536, n - 1, -1, -65537] + [65535 + 37 * j for j in range(1, 30)], "int32"]],
+               ["idx", ["nparr", [65536 + 5, n - 2] + [n - 1 - 1001 * j for j in range(30)], "uint32"]],
+               ["idx", ["nparr", [70000, -70000] + [-65537 - 91 * j for j in range(30)], "int64"]], ["idx", ["range", n - 1, 65000, -4099]],
                ["call", "np.multiply", [["self"], ["float", fhex(2.0)]], {"out": ["fill", "float64", [n], 0], "where": ["cmp", "gt", ["rec", 0, d.upper()], ["int", "0"]]}],
                ["call", "np.concatenate", [["lst", [["rec", 0, d, ["slice", None, 65536, None]], ["rec", 0, d, ["slice", 65536, None, None]]]]], {}],
                ["call", "np.hypot", [["self"], ["rec", 0, "xyz"[("xyz".index(d) + 1) % 3]]], {}]]
         for e in exprs:
             sw.check(f"size scaled {expr_str(e).split('(')[0][:24]} n={'2^20+3' if n == 2 ** 20 + 3 else n}", sdata, e, env, ("size", n, str(e)))
+
+
+# --------------------------------------------------------------------------------------------
+# index forms: python ranges of every sign combination, integer index arrays of every dtype, tuples, nested lists,
+# Ellipsis - on every class of view, alone and followed by the expressions the selection is used in
+# --------------------------------------------------------------------------------------------
+def range_grid(n):
+    h = max(n // 2, 1)
+    starts = [0, 1, n - 1, n, -1, -n, -h, -n - 1]
+    stops = [0, 1, n - 1, n, -1, -n, -h, -n - 1]
+    return [["range", a, b, c] for a in starts for b in stops for c in (1, 2, -1, -3)]
+
+
+def index_forms_1d(n):
+    """deterministic forms on an axis of n >= 3 points -> [(index spec, class)]"""
+    out = [(r, "range") for r in range_grid(n)]
+    for dt in INT_DTYPES + ["intp"]:
+        signed = not dt.startswith("u")
+        out += [(["nparr", [0, n - 1, 1], dt], "index array"), (["nparr", [], dt], "index array"), (["nparr", 2, dt], "0-d index array"),
+                (["nparr", [[0, 1], [n - 1, 0]], dt], "nested index list"), (["npint", n - 1, dt], "numpy int")]
+        if signed:
+            out += [(["nparr", [-1, 0, -n, n - 1], dt], "index array"), (["nparr", [-n - 1], dt], "index array"), (["npint", -1, dt], "numpy int"),
+                    (["nparr", -1, dt], "0-d index array")]
+    full = ["slice", None, None, None]
+    inner = [["int", 1], ["int", -1], ["slice", 1, -1, None], ["slice", None, None, -1], ["list", [0, -1]], ["list", []], ["range", n - 1, -1, -1],
+             ["range", -2, 0, 1], ["nparr", [-1, 0], "int8"], ["nparr", [1], "uint16"], ["mask", [i % 2 == 0 for i in range(n)]], ["npint", 1, "int64"]]
+    for q in inner:
+        out += [(["tuple", [q]], "tuple"), (["tuple", [q, ["ellipsis"]]], "tuple"), (["tuple", [["ellipsis"], q]], "tuple")]
+    out += [(["ellipsis"], "ellipsis"), (["tuple", []], "ellipsis"), (["tuple", [["ellipsis"]]], "ellipsis"),
+            (["list", [[0, 1], [2, 0]]], "nested index list"), (["list", [[-1]]], "nested index list"), (["list", [[], []]], "nested index list"),
+            (["list", [True, False] + [True] * (n - 2)], "mask"), (["tuple", [full]], "tuple"), (["tuple", [full, full]], "tuple")]
+    return out
+
+
+def index_forms_2d(n, k):
+    """(rows, cols) pairs of every two axis forms on a (n, k) view, n >= 3"""
+    rows = [["int", 1], ["int", -1], ["npint", 0, "int32"], ["slice", None, None, -1], ["slice", 1, None, 2], ["list", [0, -1]], ["range", n - 1, -1, -1],
+            ["range", -2, 0, 1], ["range", 0, n, 2], ["nparr", [-1, 0], "int8"], ["nparr", [1, 0], "uint64"], ["mask", [i % 2 == 0 for i in range(n)]],
+            ["ellipsis"]]
+    cols = [["int", 0], ["int", -1], ["npint", k - 1, "uint8"], ["slice", None, None, None], ["slice", None, None, -1], ["list", [k - 1, 0]],
+            ["range", k - 1, -1, -1], ["range", -1, 0, 1], ["range", 0, k, 1], ["nparr", [-1, 0], "int16"], ["nparr", [0], "uint8"], ["ellipsis"]]
+    out = []
+    for a in rows:
+        for b in cols:
+            if a[0] == "ellipsis" and b[0] == "ellipsis":
+                continue
+            out.append((["tuple", [a, b]], f"({a[0]}, {b[0]})"))
+    return out
+
+
+def sweep_index_forms(sw, sfs):
+    ctx, rng = sw.ctx, sw.ctx.rng
+    datasets = []
+    picked = rng.sample(sfs, ctx.n(5, 40)) + [q for q in sfs if q[1] == "return_number" and q[0] in (1, 6)]
+    for fmt, name, composed, mask in picked:
+        n = rng.choice([9, 9, 12, 40])
+        datasets.append((rand_subfield_data(rng, sfs, n, fmt, name), "subfield", mask))
+    for dim, k in [("x", None), ("z", None), ("e", 1), ("e", 2), ("e", 3)] * ctx.n(1, 4):
+        datasets.append((rand_scaled_data(rng, dim=dim, n=rng.choice([9, 12]), k=k), None, None))
+    # 300 points: entries above 127 / 255 and negative entries whose 8-bit wrap is again a valid position
+    fmt, name, composed, mask = rng.choice(sfs)
+    datasets.append(({"kind": "subfield", "format": fmt, "field": name, "pattern": ["pattern", 300, rng.choice([3, 7, 37]), rng.randrange(256)], "via": "item"}, "subfield", mask))
+    for dim, k in (("x", None), ("e", 2)):
+        datasets.append((rand_scaled_data(rng, dim=dim, n=300, k=k), None, None))
+    for di, (data, tag, mask) in enumerate(datasets):
+        env = build(data)
+        shape = tuple(env["get"]().shape)
+        n = shape[0]
+        multi = len(shape) > 1
+        if tag is None:
+            tag = "scaled" + ("" if not multi else f" {shape[1]}-element") + (" xyz" if data["dim"] in "xyz" else " extra" if not multi else "")
+        maxv = (mask >> lsb_of(mask)) if mask else 3
+        if n == 300:
+            forms = [(["nparr", e, dt], "index array") for dt in INT_DTYPES[2:] + ["intp"]
+                     for e in ([299, 256, 255, 128, 1], [200], [[257, 3], [130, 299]]) + (([-1, -44, -300, -129, 256], [-257]) if not dt.startswith("u") else ())]
+            forms += [(["npint", e, dt], "numpy int") for dt in ("int16", "uint16", "int64") for e in (299, 256, 200)] + [(["npint", -257, "int16"], "numpy int")]
+            forms += [(["range", 299, 250, -7], "range"), (["range", -300, -40, 128], "range"), (["list", [256, -257, 299]], "index list")]
+            if multi:
+                forms += [(["tuple", [q, ["int", 1]]], f"({c}, int)") for q, c in forms[:12]]
+        else:
+            forms = index_forms_1d(n) + (index_forms_2d(n, shape[1]) if multi else [])
+        for ix, cls in forms:
+            v = sw.check(f"{tag} index {cls}", data, ["idx", ix], env, ("ixf", di, str(ix)), quiet_viewraises=True)
+            if v != "same" or (cls == "range" and rng.random() < 0.6):
+                continue
+            if tag == "subfield":
+                follow = rng.choice([["op", rng.choice(CMP), ["int", str(rng.choice([1, maxv, maxv + 1]))]], ["fn", rng.choice(["max()", "np.sum", "np.unique"])],
+                                     ["op", rng.choice(ARITH), ["int", "2"]]])
+            else:
+                follow = rng.choice([["fn", rng.choice(["max()", "min()", "np.sum", "np.max", "np.asarray_f32"])], ["op", rng.choice(ARITH), ["float", fhex(2.5)]]])
+            fname = follow[1] if follow[0] == "fn" else SYM[follow[1]]
+            sw.check(f"{tag} index {cls} then {fname}", data, ["seq", ["idx", ix], follow], env, ("ixf2", di, str(ix), str(follow)), quiet_viewraises=True)
+
+
+# --------------------------------------------------------------------------------------------
+# the view as the RIGHT operand of a python number / sequence, unary operators, operators the views do not define,
+# augmented assignments.  Where the view raises TypeError there is no result (counted); where it answers, numpy's answer
+# on np.array(view) is the reference.
+# --------------------------------------------------------------------------------------------
+def left_operands(shape, maxv):
+    n = shape[0]
+    k = shape[1] if len(shape) > 1 else None
+    out = [["int", str(v)] for v in (0, 1, 2, 3, 10, 100, -1, -7, 255, 256, maxv, maxv + 1, 2 ** 31, 2 ** 70)]
+    out += [["float", fhex(v)] for v in (0.0, 0.5, 2.5, 1000.0, -1.5, 1e300, float("nan"), float("inf"))]
+    out += [["bool", True], ["bool", False]]
+    ints = [(i * 7 + 3) % (maxv + 2) for i in range(n)]
+    if k is None:
+        out += [["list", ints], ["tuple", ints], ["list", [fhex(v + 0.5) for v in ints]], ["list", []], ["tuple", [3]], ["list", [2]],
+                ["list", [bool(v & 1) for v in ints]], ["list", [ints, ints]]]
+    else:
+        out += [["list", [[v] for v in ints]], ["tuple", [[v] for v in ints]], ["list", list(range(1, k + 1))], ["tuple", [fhex(v + 0.5) for v in range(k)]],
+                ["list", [[v + j for j in range(k)] for v in ints]], ["list", ints], ["list", []]]
+    out += [["np", "int64", "3"], ["np", "uint8", "2"], ["npfloat", "float32", fhex(1.5)], ["npbool", True],
+            ["arr", "int64", list(shape), [(i * 5 + 1) % 9 for i in range(int(np.prod(shape)))]],
+            ["none"], ["str", "a"], ["complex", 1.0, 2.0]]
+    return out
+
+
+def left_class(o):
+    return {"int": "python int", "float": "python float", "bool": "python bool", "list": "python list", "tuple": "python tuple", "np": "numpy scalar",
+            "npfloat": "numpy scalar", "npbool": "numpy scalar", "arr": "array"}.get(o[0], "other")
+
+
+def sweep_reflected(sw, data, env, tag, scaled, maxv, full=True):
+    """full=False: the operators that do not depend on the mask (delegations / TypeError) on a sample of the left operands"""
+    ctx = sw.ctx
+    shape = tuple(env["get"]().shape)
+    key = (tag, data.get("field"), data.get("format"), data.get("case"))
+    lefts = left_operands(shape, maxv)
+    some = set(ctx.rng.sample(range(len(lefts)), 8)) if not full else None
+    for j, o in enumerate(lefts):
+        for op in OPS + EXTRA_BIN:
+            if scaled and op in CMP:
+                continue        # comparisons of scaled views are excluded by the property (c < v is v > c)
+            if some is not None and op not in CMP and j not in some:
+                continue
+            python_left = o[0] in ("int", "float", "bool", "list", "tuple", "none", "str", "complex")
+            # python reflects a comparison onto the view's own method: a result is expected; arithmetic with a python object on
+            # the left needs a reflected method the views do not have: TypeError, no result
+            quiet = (python_left and op not in CMP) or op in EXTRA_BIN
+            sw.check(f"{tag} reflected {SYM[op]} {left_class(o)} on the left", data, ["rop", op, o], env, ("refl", key, op, str(o)[:60]), quiet_viewraises=quiet)
+    for o in left_operands(shape, maxv)[:26:3] if full else []:
+        for op in EXTRA_BIN:
+            sw.check(f"{tag} {SYM[op]} {left_class(o)}", data, ["op", op, o], env, ("xop", key, op, str(o)[:60]), quiet_viewraises=True)
+        for fn in ("divmod", "rdivmod"):
+            sw.check(f"{tag} {fn} {left_class(o)}", data, ["fn", fn, o], env, ("xop", key, fn, str(o)[:60]), quiet_viewraises=True)
+    for u in UNARY:
+        sw.check(f"{tag} unary {UNARY[u]}", data, ["unary", u], env, ("unary", key, u), quiet_viewraises=True)
+
+
+def inplace_operands(shape, maxv):
+    n = shape[0]
+    cnt = int(np.prod(shape))
+    return [["int", "1"], ["int", "2"], ["int", "0"], ["int", str(maxv)], ["int", "300"], ["int", "-1"], ["float", fhex(0.5)], ["float", fhex(2.0)],
+            ["bool", True], ["np", "uint8", "2"], ["np", "int64", "100"], ["npfloat", "float32", fhex(1.5)],
+            ["arr", "int64", list(shape), [(i * 5 + 1) % 4 + 1 for i in range(cnt)]], ["arr", "uint8", [n] + [1] * (len(shape) - 1), [(i % 3) + 1 for i in range(n)]],
+            ["arr", "float64", list(shape), [fhex(i * 0.5 + 0.5) for i in range(cnt)]], ["list", [2] * n] if len(shape) == 1 else ["list", [[2]] * n], ["self"]]
+
+
+def sweep_inplace(sw, data, tag, maxv, shape):
+    ctx, rng = sw.ctx, sw.ctx.rng
+    key = (tag, data.get("field"), data.get("format"), data.get("case"))
+    opnds = inplace_operands(shape, maxv)
+    for op in INPLACE:
+        for o in (opnds if ctx.thorough() or op in INPLACE[:5] else rng.sample(opnds, 4)):
+            sw.check(f"{tag} in-place {ISYM[op]} {operand_class(o)}", data, ["iop", op, o], None, ("iop", key, op, str(o)[:60]),
+                     quiet_viewraises=op not in INPLACE[:5])
+    for op in INPLACE[:5] + ["imod"]:
+        for o in rng.sample(opnds[:15], 5) + [opnds[0]]:
+            for via in ("item", "attr", "record"):
+                d = dict(data, via=via)
+                sw.check(f"{tag} in-place las.<dim> {ISYM[op]} {operand_class(o)}", d, ["iattr", op, o], None, ("iattr", key, via, op, str(o)[:60]),
+                         quiet_viewraises=op == "imod")
+
+
+def sweep_operand_sides(sw, sfs):
+    ctx, rng = sw.ctx, sw.ctx.rng
+    case = 0
+    seen = set()
+    for fmt, name, composed, mask in sfs:
+        maxv = mask >> lsb_of(mask)
+        data = arange_data(fmt, name, via=rng.choice(["item", "attr", "record"]))
+        env = build(data)
+        sweep_reflected(sw, data, env, "subfield", False, maxv, full=ctx.thorough() or mask not in seen)
+        seen.add(mask)
+    for fmt, name, composed, mask in rng.sample(sfs, ctx.n(4, 30)) + [q for q in sfs if q[:2] in ((1, "return_number"), (6, "classification_flags"))][:2]:
+        case += 1
+        data = rand_subfield_data(rng, sfs, rng.choice([1, 3, 9]), fmt, name)
+        data["case"] = case
+        sweep_inplace(sw, data, "subfield", mask >> lsb_of(mask), (len(bytes.fromhex(data["bytes"])),))
+    for it in range(ctx.n(10, 60)):
+        dim = ["x", "e", "e", "z", "e"][it % 5]
+        k = [None, 1, 3, None, 2][it % 5]
+        case += 1
+        data = rand_scaled_data(rng, dim=dim, n=rng.choice([1, 2, 5, 9]), k=k)
+        data["case"] = case
+        env = build(data)
+        shape = tuple(env["get"]().shape)
+        multi = len(shape) > 1
+        tag = "scaled" + ("" if not multi else f" {shape[1]}-element") + (" xyz" if data["dim"] in "xyz" else " extra" if not multi else "")
+        sweep_reflected(sw, data, env, tag, True, 7)
+        if it < ctx.n(5, 60):
+            sweep_inplace(sw, data, tag, 7, shape)
+
+
+# --------------------------------------------------------------------------------------------
+# conversions of scaled views to a narrower floating type: values where a reduced-precision or double rounding shows
+# --------------------------------------------------------------------------------------------
+def sweep_conversions(sw):
+    """np.asarray(view, dtype=float32 / float16) must be np.array(view).astype(dtype): stored integers above 2^24 (ordinary
+    projected coordinates), large offsets, and values next to the halfway points of float16 / float32 (scale 2^-30: the value
+    is 1 + an odd multiple of 2^-11 (2^-24) +- 2^-30, rounding through an intermediate precision goes the other way)"""
+    ctx, rng = sw.ctx, sw.ctx.rng
+    half16 = [2 ** 30 + (2 * k + 1) * 2 ** 19 + d for k in (0, 1, 2, 5, 100, 511) for d in (1, -1, 0)]
+    half32 = [2 ** 30 + (2 * k + 1) * 2 ** 6 + d for k in (0, 1, 7, 1000, 2 ** 20) for d in (1, -1, 0)]
+    utm = [63701224 + rng.randrange(150000) for _ in range(12)] + [485123017 + rng.randrange(150000) for _ in range(6)]
+    sets = [("halfway", 2.0 ** -30, 0.0, half16 + half32), ("halfway negative", 2.0 ** -30, -2.0, half16 + half32), ("projected", 0.01, 0.0, utm),
+            ("large offset", 0.001, 1e6, [rng.randrange(-2 ** 31, 2 ** 31) for _ in range(18)]),
+            ("tiny scale", 1e-9, 123456.789, [rng.randrange(-2 ** 31, 2 ** 31) for _ in range(18)])]
+    for it, (why, sc, of, grid) in enumerate(sets):
+        for dim, k in (("x", None), ("e", 1), ("e", 3), ("z", None)):
+            n = len(grid)
+            data = {"kind": "scaled", "format": rng.choice([0, 1, 3, 6, 7]), "scales": [fhex(sc)] * 3, "offsets": [fhex(of)] * 3,
+                    "xyz": [list(grid), list(grid[::-1]), list(grid)], "via": rng.choice(["item", "attr", "record"]), "dim": dim if dim != "e" else "edim",
+                    "case": f"conv{it}{dim}{k}"}
+            if dim == "e":
+                rows = [[grid[(i + j) % n] for j in range(k)] for i in range(n)]
+                data["extra"] = {"name": "edim", "type": (str(k) if k > 1 else "") + "int32", "scales": [fhex(sc)] * k, "offsets": [fhex(of)] * k, "grid": rows, "k": k}
+            env = build(data)
+            tag = "scaled conversion"
+            for fn in CONVERSIONS + ["np.array_f32", "np.asarray", "np.array"]:
+                sw.check(f"{tag} {fn} ({why})", data, ["fn", fn], env, ("conv", it, dim, k, fn))
+            for dt in ("float32", "float16", "float64", "longdouble", "int64", "complex64"):
+                for name, kw in (("np.asarray", {}), ("np.array", {"copy": ["lit", True]}), ("np.asanyarray", {}), ("np.ascontiguousarray", {})):
+                    sw.check(f"{tag} {name} dtype={dt} ({why})", data, ["call", name, [["self"]], dict(kw, dtype=["dtype", dt])], env, ("convk", it, dim, k, name, dt))
+                sw.check(f"{tag} np.concatenate dtype={dt} ({why})", data, ["call", "np.concatenate", [["lst", [["self"], ["self"]]]], {"dtype": ["dtype", dt], "casting": ["lit", "unsafe"]}],
+                         env, ("convc", it, dim, k, dt))
+                sw.check(f"{tag} np.add dtype={dt} ({why})", data, ["call", "np.add", [["self"], ["int", "0"]], {"dtype": ["dtype", dt], "casting": ["lit", "unsafe"]}],
+                         env, ("conva", it, dim, k, dt))
+            for ix in (["slice", None, None, 2], ["list", [0, -1, 3]], ["range", n - 1, -1, -1]):
+                for fn in ("np.asarray_f16", "np.asarray_f32", "f16[:] = v"):
+                    sw.check(f"{tag} index then {fn} ({why})", data, ["seq", ["idx", ix], ["fn", fn]], env, ("convi", it, dim, k, str(ix), fn), quiet_viewraises=True)
 
 
 def run_sweep(ctx):
@@ -1597,6 +2048,9 @@ def run_sweep(ctx):
         sweep_keywords(sw, sfs)
         sweep_multi_view(sw, sfs)
         sweep_sizes(sw, sfs)
+        sweep_index_forms(sw, sfs)
+        sweep_operand_sides(sw, sfs)
+        sweep_conversions(sw)
     return sw
 
 
@@ -1659,13 +2113,23 @@ def nd_expected(tok, env):
 def resolve_axis(s, n):
     """numpy's resolution of one axis index to ('i', position) | ('s', positions); None when numpy would raise"""
     t = s[0]
+    try:
+        mk_index(s)
+    except Exception:
+        return None           # the index itself cannot be built (np.uint8(-1), range(.., 0))
     if t == "int":
         i = s[1] + n if s[1] < 0 else s[1]
         return ("i", i) if 0 <= i < n else None
     if t == "slice":
         return ("s", list(range(n))[slice(s[1], s[2], s[3])], "slice")
-    if t in ("list", "nparr"):
-        ps = [p + n if p < 0 else p for p in s[1]]
+    if t == "npint":
+        i = s[1] + n if s[1] < 0 else s[1]
+        return ("i", i) if 0 <= i < n else None
+    if t in ("list", "nparr", "range"):
+        flat = list(mk_index(s)) if t == "range" else s[1]
+        if not isinstance(flat, list) or any(isinstance(p, list) for p in flat):
+            return None       # 0-d / nested: not a form of the model
+        ps = [p + n if p < 0 else p for p in flat]
         return ("s", ps, "adv") if all(0 <= p < n for p in ps) else None
     if t == "mask":
         if len(s[1]) != n:
@@ -1687,11 +2151,13 @@ def model_ix(ix, n, k):
     if t == "int":
         r = resolve_axis(ix, n)
         return f"int:{r[1]}" if r else None
-    if t in ("slice", "list", "nparr", "mask"):
+    if t in ("slice", "list", "nparr", "mask", "range"):
         r = resolve_axis(ix, n)
         if r is None:
             return None
         return ("slice:" if t == "slice" else "adv:") + zl(r[1])
+    if t == "tuple" and len(ix[1]) == 1 and ix[1][0][0] in ("slice", "list", "nparr", "mask", "range"):
+        return model_ix(ix[1][0], n, k)       # v[(rows,)] is v[rows]
     if t == "tuple" and len(ix[1]) == 2 and k is not None:
         a, b = ix[1]
         if b[0] == "ellipsis":
@@ -1724,6 +2190,14 @@ def bits(a):
     return [None if np.isnan(v) else int(np.float64(v).view(np.uint64)) for v in a.ravel()]
 
 
+def col01(r):
+    """a boolean column of 256 entries as a string of 0/1 (the model's format)"""
+    a = np.asarray(r)
+    if a.shape == (256,) and a.dtype == bool:
+        return (a.astype(np.uint8) + 48).tobytes().decode("ascii")
+    return f"shape {a.shape} {a.dtype}"
+
+
 def correspond(ctx):
     import laspy.point.dims as dims
     ctx.extra["rule"] = (
@@ -1751,6 +2225,13 @@ def correspond(ctx):
         "searchsorted, digitize, interp, lexsort, outer, dot, histogram2d, maximum, hypot, arctan2 ..., view <op> view) where the views are "
         "the same dimension of DIFFERENT records whose scalings are identical / 1 ulp / 1e-9 / 1e-6 relative / one grid step of offset / "
         "1.0 of offset apart / clearly different, the next coordinate of the same record related the same way, chunks of one record, "
+        "index forms on every class of view: python ranges (8 starts x 8 stops x 4 steps of every sign), index arrays of the 9 integer dtypes "
+        "(negative entries, empty, 0-d, 2-d), numpy ints of every dtype, 1-tuples / Ellipsis combinations, nested lists, 13 x 12 (rows, cols) "
+        "pairs of axis forms, each followed by a comparison / reduction / arithmetic / float32 conversion; the view as the RIGHT operand: "
+        "19 binary operators x left operands {python ints, floats, bools, lists, tuples, nested / empty sequences, numpy scalars, arrays, junk}, "
+        "unary operators, 12 augmented assignments x 17 operands on a bound name and as las.<dim> op= c through the three access paths; "
+        "conversions np.asarray / np.array / asanyarray / ascontiguousarray / require / fromiter / stack(dtype=) / buffer[...] = view with "
+        "float32, float16, longdouble, int64, complex64; "
         "sub-fields of the same byte / another byte / another record of the same or of another format (same name, another mask), and "
         "views of different classes in one call (on the numpy side EVERY view is np.array(view)); records of 2^20+3 and 2*65536 points. "
         "E(view) is compared with E(np.array(view)): kind of values, shape up to length-1 axes, values (binary64 bit patterns). "
@@ -1792,6 +2273,43 @@ def correspond(ctx):
             if not ok:
                 dis.append({"kind": f"route {c} {SYM[op]}", "input": {"class": c, "operator": op}, "model": mo,
                             "impl": detail or f"defined by the class itself: {own}"})
+    # ---- the view as right operand: reflected routes, in-place fallback
+    arith_idx = [i for i, op in enumerate(OPS) if op in ARITH]
+    lines = [f"rroute {c} {i}" for c in classes for i in arith_idx] + ["inplace"]
+    outs = dict(zip(lines, common.run_model(lines, name="c10")))
+    with warnings.catch_warnings(), np.errstate(all="ignore"):
+        warnings.simplefilter("ignore")
+        for c in classes:
+            for i in arith_idx:
+                op, mo = OPS[i], outs[f"rroute {c} {i}"]
+                ctx.traces += 1
+                ctx.count("reflected route")
+                has = hasattr(pycls[c], f"__r{op}__")
+                detail = None
+                if mo not in ("Absent",) and not mo.startswith("Swapped"):
+                    detail = "no route in the model"
+                elif has != mo.startswith("Swapped"):
+                    detail = f"the class has __r{op}__: {has}"
+                elif c != "av":
+                    for env in ((hdr_env,) if c == "sf" else (sc_env, x_env)):
+                        v = env["get"]()
+                        for left in (3, 2.5, [2] * len(v) if v.ndim == 1 else [[2]] * len(v)):
+                            got = ev(lambda: getattr(operator, op)(left, v))
+                            if mo == "Absent":
+                                if got[0] != "err" or got[1] != "ETypeError" and "Type" not in got[1]:
+                                    detail = f"{left!r:.20} {SYM[op]} v: {describe(got)}"
+                            else:
+                                want = ev(lambda: getattr(operator, OPS[int(mo.split()[1])])(left, np.array(v)))
+                                if got[0] != want[0] or (got[0] == "ok" and not same_value(got[1], want[1])):
+                                    detail = f"{left!r:.20} {SYM[op]} v: {describe(got)}; model: numpy's {describe(want)}"
+                if detail:
+                    dis.append({"kind": f"reflected route {c} {SYM[op]}", "input": {"class": c, "operator": op}, "model": mo, "impl": detail})
+        mo = outs["inplace"]
+        own = [f"{k.__name__}.__{q}__" for k in pycls.values() for q in INPLACE if ("__%s__" % q) in k.__dict__]
+        rebound = [type(operator.iadd(env["get"](), 1)).__name__ for env in (hdr_env, sc_env, x_env)]
+        ctx.traces += 1
+        if mo != "fallback" or own or any(q != "ndarray" for q in rebound):
+            dis.append({"kind": "in-place route", "input": {"statement": "v += 1"}, "model": mo, "impl": f"in-place methods {own}; v is bound to {rebound}"})
     # ---- sub-field comparisons: model column per (mask, op, integer operand) vs every format's record
     cols = {}
     cmds = []
@@ -1799,10 +2317,11 @@ def correspond(ctx):
         for o in [("py", 0, "F", v) for v in py_int_operands(mask)] + [("np", np.iinfo(dt).bits, "T" if np.iinfo(dt).min < 0 else "F", v) for dt, v in np_int_operands(mask)] \
                 + [("bool", 0, "F", 1), ("bool", 0, "F", 0)]:
             for i in range(6):
-                key = f"cmpcol {mask} {i} {o[0]} {o[1]} {o[2]} {o[3]}"
-                if key not in cols:
-                    cols[key] = None
-                    cmds.append(key)
+                for cmd in ("cmpcol", "rcmpcol"):
+                    key = f"{cmd} {mask} {i} {o[0]} {o[1]} {o[2]} {o[3]}"
+                    if key not in cols:
+                        cols[key] = None
+                        cmds.append(key)
     for key, out in zip(cmds, common.run_model(cmds, name="c10")):
         cols[key] = out
     with warnings.catch_warnings(), np.errstate(all="ignore"):
@@ -1818,7 +2337,7 @@ def correspond(ctx):
                     mo = cols[f"cmpcol {mask} {i} {o[0]} {o[1]} {o[2]} {o[3]}"]
                     try:
                         r = getattr(operator, op)(v, obj)
-                        im = "".join("1" if b else "0" for b in np.asarray(r).tolist()) if np.asarray(r).shape == (256,) and np.asarray(r).dtype == bool else f"shape {np.asarray(r).shape} {np.asarray(r).dtype}"
+                        im = col01(r)
                     except Exception as ex:
                         im = "err " + common.exc_kind(ex)
                     ctx.traces += 1
@@ -1828,6 +2347,21 @@ def correspond(ctx):
                     if im != mo:
                         cls = operand_class(["int", str(o[3])], mask) if o[0] == "py" else ("bool" if o[0] == "bool" else f"numpy {type(obj).__name__}")
                         dis.append({"kind": f"subfield {SYM[op]} {cls}", "input": {"format": fmt, "field": name, "operator": op, "operand": f"{type(obj).__name__}({int(obj)})"},
+                                    "model": mo[:64] + "...", "impl": im[:64] + "..."})
+                    # the constant on the LEFT: python's mirrored comparison (python objects) / __array_ufunc__ (numpy scalars)
+                    mo = cols[f"rcmpcol {mask} {i} {o[0]} {o[1]} {o[2]} {o[3]}"]
+                    try:
+                        r = getattr(operator, op)(obj, v)
+                        im = col01(r)
+                    except Exception as ex:
+                        im = "err " + common.exc_kind(ex)
+                    ctx.traces += 1
+                    ctx.evaluations += 255
+                    ctx.case(("rcol", mask, op, o), nontrivial=True)
+                    ctx.count("model column, constant on the left")
+                    if im != mo:
+                        cls = operand_class(["int", str(o[3])], mask) if o[0] == "py" else ("bool" if o[0] == "bool" else f"numpy {type(obj).__name__}")
+                        dis.append({"kind": f"subfield reflected {SYM[op]} {cls} on the left", "input": {"format": fmt, "field": name, "operator": op, "operand": f"{type(obj).__name__}({int(obj)})"},
                                     "model": mo[:64] + "...", "impl": im[:64] + "..."})
         # ---- sub-field indexing
         cases = []
